@@ -4,7 +4,7 @@
     known here when nothing fails, and at no other node.  (Each hosting node then writes it once
     per matching subscription entry: C01's [by_pattern_once] and [deliver_exact].) *)
 From Wasp Require Import Model.Base Spec.MatchSpec Model.DState Model.IdPool Model.Mount Model.Node
-  Proofs.BaseFacts Proofs.NodeFacts.
+  Proofs.BaseFacts Proofs.NodeFacts Proofs.Qos2Facts.
 From stdpp Require Import list strings.
 From Coq Require Import ZArith Lia.
 Open Scope Z_scope.
@@ -59,4 +59,34 @@ Proof.
   assert (Hf1 : n_fail (getn (setn cl0 o n1) o) = 0%nat) by (rewrite getn_setn by done; exact Hf).
   pose proof (append_fold_ok o (peer_wills n1 pid) (setn cl0 o n1) [] Hlen1 Hf1) as H. cbn [app] in H.
   exact H.
+Qed.
+
+(** host failure in two steps (nodes.go: NotifyGossipLeave returns after the wills; the session
+    records of the failed peer are removed by a goroutine three seconds later) *)
+Lemma append_at_sess cl j m i : d_sess (n_d (getn (append_at cl j m).1.1 i)) = d_sess (n_d (getn cl i)).
+Proof.
+  unfold append_at. destruct (n_fail (getn cl j)); cbn [fst]; unfold getn, setn; cbn [cl_nodes]; rewrite Qos2Facts.set_nth_nth;
+    destruct (Nat.eqb j i && Nat.ltb j (length (cl_nodes cl))) eqn:E; try done;
+    apply andb_true_iff in E as [->%Nat.eqb_eq _]; done.
+Qed.
+Lemma append_fold_sess o wills i : ∀ c ob,
+  d_sess (n_d (getn (fold_left (λ acc w, let '(c, ob, _) := append_at acc.1 o w in (c, (acc.2 ++ ob)%list)) wills (c, ob)).1 i)) = d_sess (n_d (getn c i)).
+Proof.
+  induction wills as [|w wills IH]; intros c ob; cbn [fold_left]; [done|]. cbn [fst snd].
+  pose proof (append_at_sess c o w i) as Ha. destruct (append_at c o w) as [[c' ob'] ok]. cbn [fst] in Ha. rewrite IH. exact Ha.
+Qed.
+Theorem notice_publishes_wills cl o d clk : (o < length (cl_nodes cl))%nat → n_fail (getn cl o) = 0%nat →
+  let pid := Z.of_nat (S d) in
+  let n1 := mutate (getn cl o) (sub_delete_peer (n_d (getn cl o)) pid clk) in
+  (peer_notice cl o d clk).2 = map (λ w, Appended o (l_topic w) (l_payload w) (l_qos w) (l_retain w)) (peer_wills n1 pid).
+Proof. intros Hlen Hf. pose proof (host_failure_wills cl o d clk Hlen Hf) as H. exact H. Qed.
+(* ... and until its own delayed removal the survivor keeps every session record as it was: what
+   another survivor does in the meantime is LWW-merged, but nothing is removed by noticing *)
+Theorem notice_keeps_records cl o d clk i : (o < length (cl_nodes cl))%nat →
+  d_sess (n_d (getn (peer_notice cl o d clk).1 i)) = d_sess (n_d (getn cl i)).
+Proof.
+  intros Hlen. unfold peer_notice. rewrite append_fold_sess.
+  set (cl0 := Cluster _ _ _ _ _ _). unfold getn, setn. cbn [cl_nodes cl0]. rewrite Qos2Facts.set_nth_nth.
+  destruct (Nat.eqb o i && Nat.ltb o (length (cl_nodes cl))) eqn:E; [|done].
+  apply andb_true_iff in E as [->%Nat.eqb_eq _]. unfold mutate, sub_delete_peer, sub_bulk_delete. cbn. done.
 Qed.
